@@ -819,6 +819,7 @@ def strip_x(job):
 
 def eval_transfers(ctx, rjobs, rres):
     lines = [HEADER, f'Definition tol : Q := {lib.coq_Q(TOL)}.']
+    mat_lines = {}   # run id -> definitions of its matrices
     cases = []       # (cid, expr, meta)
     sym = []         # python-side classified (raises ...)
     n_mat = 0
@@ -832,8 +833,8 @@ def eval_transfers(ctx, rjobs, rres):
                 nmA = f'A_{rid}_{knn}_{where}'
                 rows = d[where]['rows']
                 M, N = d[where]['shape']
-                lines.append(f'Definition {nmA} : bmat := {cbmat(rows)}.')
-                lines.append(f'Definition {nmA}_T : bmat := transpose {N} {nmA}.')
+                mat_lines.setdefault(rid, []).append(f'Definition {nmA} : bmat := {cbmat(rows)}.')
+                mat_lines[rid].append(f'Definition {nmA}_T : bmat := transpose {N} {nmA}.')
                 mats[(knn, where)] = (nmA, M, N)
                 n_mat += 1
                 # hypotheses of the transfer theorems on the real matrices
@@ -901,14 +902,23 @@ def eval_transfers(ctx, rjobs, rres):
                     cases.append((len(cases), f'total_kept tol {xq} {yq}', dict(m, type='total')))
     if not cases and not sym:
         return
-    # split into files of <= 400 cases
+    # files of <= 400 cases, each with the matrices of the runs it needs only
     bad = set()
-    for k in range(0, len(cases), 400):
-        chunk = cases[k:k + 400]
-        txt = lines + ['Goal True. idtac "@@ tr". Abort.',
-                       'Eval vm_compute in map fst (filter (fun c => negb (snd c)) ' +
-                       lib.coq_list([f'({cz(i)}, {e})' for i, e, _ in chunk]) + ').']
-        rc, out, err = ctx.coq_eval(f'CasesTransfer{k // 400}', '\n'.join(txt) + '\n', timeout=900)
+    chunks = []
+    for c in cases:
+        if not chunks or len(chunks[-1]) >= 400:
+            chunks.append([])
+        chunks[-1].append(c)
+    for k, chunk in enumerate(chunks):
+        rids = []
+        for _, _, meta in chunk:
+            if meta['run'] not in rids:
+                rids.append(meta['run'])
+        txt = lines + [ln for rid in rids for ln in mat_lines.get(rid, [])] + [
+            'Goal True. idtac "@@ tr". Abort.',
+            'Eval vm_compute in map fst (filter (fun c => negb (snd c)) ' +
+            lib.coq_list([f'({cz(i)}, {e})' for i, e, _ in chunk]) + ').']
+        rc, out, err = ctx.coq_eval(f'CasesTransfer{k}', '\n'.join(txt) + '\n', timeout=900)
         b = None if rc != 0 else failing(lib.parse_marked(out).get('tr', ''))
         if b is None:
             ctx.violation('correspondence', {}, 'CasesTransfer.v evaluates', (err or out)[-600:],
